@@ -2,11 +2,13 @@
 use super::*;
 use crate::crypto::{hash_string, hash_type};
 
+include!("verif_blocks_builder.rs");
+
 pub fn stub_format(_args: core::fmt::Arguments<'_>) -> String {
     String::new()
 }
 
-// @harness unit=U01.4 props=C01,C02 kind=complete timeout=600 target="builder.rs: calculate_file_key (published formula, all positions/sizes/flags; name fixed: its hash is U04)"
+// @harness unit=U01.4 props=C01,C02 kind=complete timeout=600 target="builder.rs: calculate_file_key (published formula, all positions/sizes/flags; name fixed: its hash is U04)" oracle=mpq_interop
 #[kani::proof]
 #[kani::unwind(8)]
 #[kani::stub(alloc::fmt::format, stub_format)]
@@ -53,4 +55,24 @@ fn u01_2_bits_needed() {
     assert!(bits >= 1 && bits <= 64);
     assert!(bits == 64 || v < (1u64 << bits), "value fits in the width");
     assert!(bits == 1 || v >= (1u64 << (bits - 1)), "no smaller width fits");
+}
+
+// the key statements of write_file (single-unit and sectored branch): the key is derived from the ORIGINAL file size
+// @harness unit=U01.4 props=C01,C02 kind=bounded bound="file data <= 6 bytes (only its length enters the key)" timeout=600 target="builder.rs: write_file key statements (E11 blocks)" oracle=mpq_interop
+#[kani::proof]
+#[kani::unwind(8)]
+#[kani::stub(alloc::fmt::format, stub_format)]
+fn u01_4_write_file_key_uses_file_size() {
+    let b = ArchiveBuilder::new();
+    let name = "a\\b.c";
+    let base = hash_string(name, hash_type::FILE_KEY);
+    let pos: u64 = kani::any();
+    let flags: u32 = kani::any();
+    let data = [0u8; 6];
+    let n: usize = kani::any();
+    kani::assume(n <= 6);
+    let want = if flags & BlockEntry::FLAG_FIX_KEY != 0 { base.wrapping_add(pos as u32) ^ (n as u32) } else { base };
+    assert!(blk_write_file_key_single(&b, name, &pos, &data[..n], flags) == want, "single-unit key uses position and uncompressed size");
+    assert!(blk_write_file_key_sectored(&b, name, &pos, &data[..n], flags) == want, "sectored key uses position and uncompressed size");
+    core::mem::forget(b);
 }
